@@ -60,7 +60,7 @@ def py_fname(k):
 
 
 MAIN_KEYS = {
-    'str': ['a', 'b', 'k1', 'x_y', 'K', 'Q 7', 'z.z', 'p-q', '2024-01-15'],
+    'str': ['a', 'b', 'k1', 'x_y', 'K', 'Q 7', 'z.z', 'p-q', '2024-01-15', 'L' * 245 + 'a', 'L' * 245 + 'b'],   # two long keys with a long common prefix (still below NAME_MAX)
     'int': [7, 12, -3, 0],
     'ident': ['a', 'b', 'k1', 'x_y', 'K', 'Q7'],
     'tuple': [(1, 2), ('a', 3), (5,), (), ('x', 'y')],
